@@ -282,8 +282,9 @@ def gen_client_options(repo):
 
 
 # ------------------------------------------------------------------------------- where the connection is closed (C13)
-def _arm_effects(expr, what):
-    """the statements of one arm of `match self.client_loop.run(&mut phys).await`, in order, as effects"""
+def _arm_effects(expr, what, src='', depth=0):
+    """the statements of one arm of `match self.client_loop.run(&mut phys).await`, in order, as effects; a call of a helper
+    method `self.name().await` of the same impl is followed (its statements are the arm's statements)"""
     body = expr.strip()
     if body.startswith('{') and body.endswith('}'):
         body = body[1:-1]
@@ -304,6 +305,10 @@ def _arm_effects(expr, what):
             pass
         elif flat in ('Ok(())', 'Err(StateChange::Shutdown)'):
             pass
+        elif depth == 0 and re.fullmatch(r'self\.([a-z_]+)\(\)\.await', flat):
+            name = re.fullmatch(r'self\.([a-z_]+)\(\)\.await', flat).group(1)
+            helper = rp.find_body(src, r'async\s+fn\s+' + name + r'\s*\(\s*&mut\s+self\s*\)\s*->\s*Result<\(\),\s*StateChange>\s*\{')
+            effects += _arm_effects(helper, f'{what} ({name})', src, 1)[:-1]
         else:
             raise ParseError(f'{what}: statement not understood: {stmt[:70]}')
     return effects + ['FxScopeEnd']          # the owned PhysLayer goes out of scope when the function returns
@@ -321,7 +326,7 @@ def _scope_table(src, fn_re, what, ses_names):
             a = re.fullmatch(r'SessionError::([A-Za-z]+)(?:\(_\))?', alt.strip())
             if not a or a.group(1) not in ses_names:
                 raise ParseError(f'{what}: arm pattern not understood: {alt.strip()}')
-            table[a.group(1)] = _arm_effects(expr, what)
+            table[a.group(1)] = _arm_effects(expr, what, src)
     if sorted(table) != sorted(ses_names):
         raise ParseError(f'{what}: the arms do not cover SessionError exactly')
     return table
